@@ -261,6 +261,111 @@ def part_scheduler(case):
             "targets": [f"{m.__name__}.{n}" for m, n in targets], "locks": sorted(real_locks)}
 
 
+# ------------------------------------------------------------------------------------------ part 1b: interpreter-wide setters under the controlled scheduler
+def _global_setters():
+    """(module, name) of functions that change interpreter- or process-wide state an extraction result may depend on.  Code that calls one of them
+    through the module attribute (sys.setrecursionlimit(...)) reaches the harness' wrapper: every such call is a scheduling point."""
+    import codecs
+    import decimal
+    import locale
+    import mimetypes
+    import warnings
+    return [(sys, "getrecursionlimit"), (sys, "setrecursionlimit"), (sys, "setswitchinterval"), (mimetypes, "add_type"), (mimetypes, "init"),
+            (codecs, "register"), (codecs, "register_error"), (os, "chdir"), (os, "umask"), (os, "putenv"), (locale, "setlocale"),
+            (decimal, "setcontext"), (warnings, "simplefilter"), (warnings, "filterwarnings"), (gc, "disable"), (gc, "enable"), (threading, "setprofile"), (threading, "settrace")]
+
+
+def part_sched_globals(case):
+    """k threads, each extracting one document, explored exhaustively at the granularity of calls to interpreter-wide setters (no such call
+    = one schedule per thread order).  After every schedule: each result equals the document's result extracted alone in this process, and
+    the interpreter-wide state equals the state before."""
+    from vlib.mon import sched
+    import random
+    steps = [_step(st) for st in case["steps"]]
+    inputs = [_step_io(st) for st in steps]
+    k = len(inputs)
+    solo = [_extract_digest(*inp) for inp in inputs]
+    before = snapshot()
+    limit0 = sys.getrecursionlimit()
+    current = {"run": None}
+    targets = _global_setters()
+    originals = {}
+
+    def wrap(f, label):
+        def hooked(*a, **kw):
+            r = current["run"]
+            if r is not None:
+                r.point(label)
+            return f(*a, **kw)
+        hooked.__name__ = getattr(f, "__name__", label)
+        return hooked
+    for mod, name in targets:
+        f = getattr(mod, name, None)
+        if f is not None:
+            originals[(mod, name)] = f
+            setattr(mod, name, wrap(f, f"{mod.__name__}.{name}"))
+    bad = []
+    seen_labels = set()
+    hooks_live = [0]
+    orig_run = sched.Run
+    sched.Run = _lock_aware_run(sched, current, float(case.get("stall_s", 10.0)))
+    try:
+        # the hooks are live: two threads calling a wrapped setter produce scheduling points
+        def probe_fns():
+            def body(idx):
+                sys.setrecursionlimit(sys.getrecursionlimit())
+            return [body] * 2, None
+
+        def probe_done(run, ctx, sid):
+            hooks_live[0] = max(hooks_live[0], sum(1 for _t, lbl in run.trace if lbl.startswith("sys.")))
+        sched.explore(probe_fns, 2, probe_done, max_schedules=1)
+
+        def make_fns():
+            originals[(sys, "setrecursionlimit")](limit0)
+            got = [None] * k
+
+            def body(idx):
+                got[idx] = _extract_digest(*inputs[idx])
+            return [body] * k, got
+
+        def on_schedule(run, got, sid):
+            current["run"] = None
+            labels = sorted({lbl for _t, lbl in run.trace if lbl not in ("start", "acquire")})
+            seen_labels.update(labels)
+            feat = "+".join(l.split(".")[-1] for l in labels) or "no-setter-called"
+            trace = " ".join(f"T{t}:{lbl.split('.')[-1]}" for t, lbl in run.trace if lbl != "start")
+            if run.errors:
+                bad.append({"sym": "thread-raised", "feature": feat, "detail": run.errors[0], "trace": trace})
+            for i in range(k):
+                if got[i] != solo[i]:
+                    bad.append({"sym": "result-differs-from-extraction-alone", "feature": feat, "trace": trace,
+                                "detail": f"{_short(steps[i])}: {got[i]} in this schedule vs {solo[i]} alone"})
+            after = snapshot()
+            for k2 in ("interpreter:limits", "mimetypes:tables", "codecs:lookup", "archive_config"):
+                if before.get(k2) != after.get(k2):
+                    bad.append({"sym": f"global-state-left-changed:{k2.split(':')[0]}", "feature": feat, "trace": trace,
+                                "detail": f"{k2}: {before.get(k2)} -> {after.get(k2)} after all {k} threads have finished"})
+        try:
+            stats = sched.explore(make_fns, k, on_schedule, max_schedules=case.get("max_schedules"), preemption_bound=case.get("preemption_bound"),
+                                  rng=random.Random(case.get("seed", 0)), random_schedules=case.get("random_schedules", 0))
+        except sched.Deadlock as e:
+            stats = {"schedules": 0, "complete": False, "max_depth": 0, "blocked_seen": 0, "with_preemption": 0, "distinct_traces": 0}
+            bad.append({"sym": "deadlock", "feature": "", "detail": str(e)[:300], "trace": str(e)[-300:]})
+    finally:
+        sched.Run = orig_run
+        current["run"] = None
+        for (mod, name), f in originals.items():
+            setattr(mod, name, f)
+        sys.setrecursionlimit(limit0)
+    first = {}
+    for b in bad:
+        key = (b["sym"], b["feature"])
+        first.setdefault(key, b)
+        first[key]["count"] = first[key].get("count", 0) + 1
+    return {"part": "sched-globals", "threads": k, "stats": stats, "problems": list(first.values()), "setters_called": sorted(seen_labels), "hooks_live": hooks_live[0],
+            "solo": solo}
+
+
 class _SchedLock:
     """Stand-in for a threading.Lock / RLock of the library while schedules are explored: acquisition is a scheduling point and a
     thread that cannot get the lock is parked as *not enabled* until the owner releases it."""
@@ -533,7 +638,7 @@ def part_baseline(case):
 def work(case):
     from vlib.worker import arm_cpu
     arm_cpu(300)
-    return {"scheduler": part_scheduler, "stress": part_stress, "history": part_history, "baseline": part_baseline}[case["part"]](case)
+    return {"scheduler": part_scheduler, "stress": part_stress, "history": part_history, "baseline": part_baseline, "sched-globals": part_sched_globals}[case["part"]](case)
 
 
 # ------------------------------------------------------------------------------------------ parent
@@ -578,6 +683,18 @@ def main(run):
         cases.append({"part": "scheduler", "threads": 3, "seed": run.seed, "preemption_bound": pb, "max_schedules": mx})
     for ch in range(run.n(2, 8)):
         cases.append({"part": "scheduler", "threads": 3, "seed": run.seed * 100 + ch, "max_schedules": 1, "random_schedules": run.n(100, 1000)})
+    # interpreter-wide setters (recursion limit, MIME table, codec registry ...) under the controlled scheduler: pairs / triples of documents
+    # that could make an extractor touch such state (deep nesting, lazily imported extractors), every interleaving of the setter calls
+    deep = [["html", {"src": ["iso", "deep-html", v], "op": None}, 1] for v in ("d1500", "d3000", "d5000")] + [["mhtml", {"src": ["iso", "deep-mhtml", v], "op": None}, 1] for v in ("d1500", "d3000")]
+    plainish = [["html", {"src": ["iso", "deep-html", "d300"], "op": None}, 1], ["txt", {"src": ["iso", "plain", "txt"], "op": None}, 1], ["xlsx", {"src": ["iso", "xlsx", "sstA"], "op": None}, 1],
+                ["odt", {"src": ["iso", "odt", "imgA"], "op": None}, 1], ["epub", {"src": ["iso", "epub", "A"], "op": None}, 1], ["zip", {"src": ["iso", "zip-mime", "zipA"], "op": None}, 1]]
+    setter_cases = [{"part": "sched-globals", "steps": [deep[0], deep[1]], "seed": run.seed}, {"part": "sched-globals", "steps": [deep[2], deep[3]], "seed": run.seed},
+                    {"part": "sched-globals", "steps": [deep[1], deep[4], deep[0]], "seed": run.seed, "max_schedules": run.n(300, 3000)},
+                    {"part": "sched-globals", "steps": [deep[4], plainish[1], plainish[5]], "seed": run.seed, "max_schedules": run.n(100, 1000)}]
+    for i in range(run.n(2, 20)):
+        setter_cases.append({"part": "sched-globals", "steps": [rng.choice(deep), rng.choice(deep + plainish)] + ([rng.choice(plainish)] if rng.random() < 0.5 else []),
+                             "seed": run.seed * 100 + i, "max_schedules": run.n(100, 1000)})
+    cases += setter_cases
     stress_cases = []
     for i in range(run.n(6, 60)):
         ins = rng.sample(pdfs, min(len(pdfs), 5)) + rng.sample(others, min(len(others), 3))
@@ -605,7 +722,7 @@ def main(run):
     iso_steps = [[k, {"src": s, "op": None}, p] for g in groups for k, s in g["members"]
                  for p in ((pidx_of(s),) if run.quick else (0, 1 + zlib.crc32(json.dumps(s).encode()) % (len(iso.PATHS) - 1)))]
     for gi, g in enumerate(groups):
-        if run.quick and gi % 3 != run.seed % 3 and g["name"].split(":")[0] not in ("rtf", "docx", "pdf", "router", "archive"):
+        if run.quick and gi % 3 != run.seed % 3 and g["name"].split(":")[0] not in ("rtf", "docx", "pdf", "router", "archive", "markup"):
             continue        # quick tier: a third of the groups per seed under threads (all of them in the histories below)
         # (the AES-256 member takes seconds per extraction: it stays in the histories, the threads get the cheap members)
         stress_cases.append({"part": "stress", "seed": run.seed * 1000 + 500 + gi, "threads": 8, "iterations": run.n(10, 30), "group": g["name"],
@@ -696,6 +813,19 @@ def main(run):
                 run.violation(f"C15:pypdf-patch:{case['threads']}-threads:{p['sym']}", f"{p['detail']} in {p.get('count', 1)} of {st['schedules']} schedules; first schedule: {p['trace']}", {"case": case, "trace": p["trace"]})
             if len(run.samples) < 5:
                 run.samples.append({"part": "scheduler", "threads": case["threads"], "schedules": st["schedules"], "complete": st["complete"], "distinct_traces": st["distinct_traces"]})
+        elif part == "sched-globals":
+            st = ob["stats"]
+            run.count("setter_exploration_cases_finished")
+            run.count("schedules_over_interpreter_wide_setters", st["schedules"])
+            run.count("setter_explorations_complete", 1 if st["complete"] else 0)
+            run.count("setter_hook_points_seen_in_self_test", ob["hooks_live"])
+            run.extras.setdefault("interpreter_wide_setters_called_by_extractions", [])
+            run.extras["interpreter_wide_setters_called_by_extractions"] = sorted(set(run.extras["interpreter_wide_setters_called_by_extractions"]) | set(ob["setters_called"]))
+            run.evaluations += st["schedules"]
+            run.distinct.add(f"setters:{case['threads'] if 'threads' in case else len(case['steps'])}:{','.join(ob['setters_called'])}:{len(ob['problems'])}")
+            for p in ob["problems"]:
+                run.violation(f"C15:interpreter-wide-setters:{p['feature'] or 'schedule'}:{p['sym']}",
+                              f"{p['detail']} in {p.get('count', 1)} of {st['schedules']} schedules; first schedule: {p['trace']}", {"case": case, "trace": p["trace"]})
         elif part == "stress":
             run.count("stress_extractions", ob["extractions"])
             run.count("stress_inputs_with_isolated_reference", ob.get("isolated_references", 0))
@@ -749,7 +879,9 @@ def main(run):
     run.require("history_steps", run.counters.get("history_steps", 0), run.n(150, 3000))
     run.require("baselines", len(baselines), 10)
     run.require("history_results_compared_with_isolated_baseline", run.counters.get("history_results_compared_with_isolated_baseline", 0), run.n(300, 3000))
-    run.require("context_groups", len(groups), 38)
+    run.require("context_groups", len(groups), 39)
+    run.require("setter_exploration_cases_finished", run.counters.get("setter_exploration_cases_finished", 0), run.n(5, 20))
+    run.require("setter_hook_points_seen_in_self_test", run.counters.get("setter_hook_points_seen_in_self_test", 0), 4)
     run.require("stress_extractions_on_encrypted_pdfs", run.counters.get("stress_extractions_on_encrypted_pdfs", 0), run.n(60, 200))
     run.require("encrypted_pdfs_decrypted_and_extracted_in_isolation", run.counters.get("encrypted_pdfs_decrypted_and_extracted_in_isolation", 0), 4)
     run.require("context_group_history_steps", group_steps, run.n(200, 1200))
